@@ -109,8 +109,9 @@ for _pid, _mods in SRC_DIRECT.items():
 
 # raw-array world (harness/pysrc_obs.py -> Generated/SrcObs.lean): layout, getters, vectorize, observe, observations
 SRC_RAW = {
-    "C08": ["SrcObserve"],
-    "C09": ["SrcLayout", "SrcObserve"],
+    "C01": ["SrcRunning"],
+    "C08": ["SrcObserve", "SrcObs", "SrcObsStep"],
+    "C09": ["SrcLayout", "SrcObserve", "SrcObs"],
 }
 for _pid, _mods in SRC_RAW.items():
     PROPS[_pid]["src"] = PROPS[_pid].get("src", []) + _mods
